@@ -1,2 +1,43 @@
-(** C01 — placeholder *)
-From GoSh Require Import Base.Bytes.
+(** C01 — Parsing is total: any input yields a result or an error, never a crash or hang. *)
+From GoSh Require Import Base.Bytes Proto.Confluence Proto.LTS Lex.Alias.
+From GoShGen Require Import Extracted.
+
+(** ** Never bring the process down from the background goroutine, under both panicnil settings.
+    The lexer goroutine unwinds by panicking with its bail-out value; run() recovers it and
+    re-panics everything else.  recover() returns nil for panic(nil) only under panicnil=1; under
+    panicnil=0 it returns a *runtime.PanicNilError.  What the two lexers panic with, and what
+    run() filters, is translated from the source on every run ([Extracted]). *)
+Inductive bail := Exits | Crashes.
+Definition bail_outcome (panics_with_nil filters_sentinel panicnil : bool) : bail :=
+  if panics_with_nil then (if panicnil then Exits else Crashes)   (* recover() <> nil: re-panic *)
+  else if filters_sentinel then Exits else Crashes.
+
+Theorem C01_bailout_never_crashes :
+  forall panicnil,
+    bail_outcome Extracted.parser_bailout_is_nil Extracted.parser_bailout_filtered panicnil = Exits /\
+    bail_outcome Extracted.interp_bailout_is_nil Extracted.interp_bailout_filtered panicnil = Exits.
+Proof. intros []; split; reflexivity. Qed.
+Print Assumptions C01_bailout_never_crashes.
+
+(** ** Never block forever (protocol level): every reachable configuration of the two-goroutine
+    protocol can move, has returned, or is the here-document stand-off that the code excludes by
+    construction (see Proto/LTS.v). *)
+Theorem C01_protocol_progress :
+  forall (tok hd res pstate : Type) (pfeed : pstate -> tok -> pout hd pstate) (peof : pstate -> res + err)
+         (c : cfg tok hd res pstate),
+    Inv tok hd res pstate c ->
+    (exists c', step tok hd res pstate pfeed peof c c') \/ (exists r, cP _ _ _ _ c = PRet _ _ _ r)
+    \/ heredoc_standoff tok hd res pstate c.
+Proof. exact progress. Qed.
+Print Assumptions C01_protocol_progress.
+
+(** ** Every alias table terminates: the alias stack holds pairwise distinct names, so its depth
+    is bounded by the table (self-referential and mutually recursive aliases included). *)
+Theorem C01_alias_depth_bounded :
+  forall (t : table) (st : list bytes), reachable t st -> (length st <= length t)%nat.
+Proof. exact alias_depth_bounded. Qed.
+Print Assumptions C01_alias_depth_bounded.
+
+(** Not proved: termination and absence of panics of the 1700-line scanner itself (every scan loop
+    ends at EOF / read error).  Decided on every run by exhaustive short inputs over the significant
+    alphabet in isolated workers under both panicnil settings, all source kinds and alias tables. *)
